@@ -20,6 +20,7 @@ STRUCTS = [
     # a region that only arises as an intersection of intersections; regions with two non-maximal parents without a common ancestor
     ("second-order", ["abc", "bcd", "acd"]), ("second-order-4", ["abcd", "abef", "ace"]), ("two-lines", ["abc", "ab", "ade", "ad"]),
     ("two-fans", ["abc", "abd", "aef", "aeg"]), ("mixed-parents", ["abc", "abd", "be"]),
+    ("all-triples", ["abc", "abd", "acd", "bcd"]),
 ]
 
 
@@ -124,7 +125,7 @@ def worker(job):
         theta = {}
         for r in regions:
             on = pot_regions == "all" or r in st["cliques"]
-            theta[r] = rs.uniform(-2, 2, dom.size(r)) if on else np.zeros(dom.size(r))
+            theta[r] = (rs.randn(dom.size(r)) * 2.0 if st["name"] == "all-triples" else rs.uniform(-2, 2, dom.size(r))) if on else np.zeros(dom.size(r))
         if variant == "spread":
             # two input cliques that share an attribute get +K and -K on one of its values: each potential alone spans far
             # more than the range of exp(), the optimum is a different but equally well-defined point of the local polytope
@@ -188,6 +189,8 @@ def run(ctx, canary=False):
         sz = {a: 2 for a in attrs}
         if name in ("chain", "loop", "nested"):
             sz[attrs[0]] = 3
+        if name == "all-triples":
+            sz.update({"b": 3, "d": 3})
         try:
             sts.append(structure(name, cl, sz, rng))
             if sts[-1]["region_problem"]:
@@ -209,8 +212,11 @@ def run(ctx, canary=False):
     jobs, meta = [], []
     reps = 6 if thorough else 1
     for s in sts:
-        for damping in (0.1, 0.5, 0.9):
-            for _ in range(reps):
+        # (on the dense graph of all triples the parallel schedule of the unmodified oracle oscillates for ever at damping 0.1 with
+        # strong potentials - no run "to convergence" exists there, so the property says nothing; 0.5 and 0.9 converge)
+        for damping in ((0.5, 0.9) if s["name"] == "all-triples" else (0.1, 0.5, 0.9)):
+            # dense graphs of triples only converge when old messages keep enough weight: more draws at the largest damping
+            for _ in range(reps * (5 if (s["name"] == "all-triples" and damping == 0.9) else 1)):
                 total = rng.choice([1.0, 10.0, 1000.0])
                 pr = rng.choice(["cliques", "all"])
                 seed = rng.randrange(10 ** 6)
